@@ -59,10 +59,33 @@ def run_cbmc(cfile, incdirs, defines=(), unwind=None, unwindset=None, function='
     elif solver == 'z3': cmd += ['--z3']
     cmd += list(extra)
     t = time.time()
-    try:
-        r = subprocess.run(cmd, capture_output=True, text=True, timeout=timeout)
-    except subprocess.TimeoutExpired:
-        return {'status': 'timeout', 'wall_s': time.time() - t, 'cmd': ' '.join(cmd)}
+    # cbmc must never run into an address-space limit: it does not fail cleanly there but can report spurious FAILUREs.  The limit inherited
+    # from the driver is lifted for the cbmc process and replaced by a watchdog on its resident size (kill -> inconclusive).
+    import resource, tempfile, threading
+    lim = resource.getrlimit(resource.RLIMIT_AS)[0]
+    cap_kb = (lim // 1024) if lim not in (resource.RLIM_INFINITY, -1) else None
+    def _unlimit():
+        try: resource.setrlimit(resource.RLIMIT_AS, (resource.RLIM_INFINITY, resource.RLIM_INFINITY))
+        except Exception: pass
+    fo = tempfile.TemporaryFile(mode='w+'); fe = tempfile.TemporaryFile(mode='w+')
+    p = subprocess.Popen(cmd, stdout=fo, stderr=fe, text=True, preexec_fn=_unlimit)
+    killed = None
+    while True:
+        try:
+            p.wait(timeout=1.0); break
+        except subprocess.TimeoutExpired: pass
+        if time.time() - t > timeout: killed = 'timeout'
+        elif cap_kb:
+            try:
+                for l in open('/proc/%d/status' % p.pid):
+                    if l.startswith('VmRSS:') and int(l.split()[1]) > cap_kb: killed = 'memory'
+            except Exception: pass
+        if killed:
+            p.kill(); p.wait(); break
+    if killed:
+        return {'status': 'timeout', 'wall_s': time.time() - t, 'cmd': ' '.join(cmd), 'why': killed}
+    class _R: pass
+    r = _R(); fo.seek(0); fe.seek(0); r.stdout = fo.read(); r.stderr = fe.read(); r.returncode = p.returncode
     dt = time.time() - t
     try:
         js = json.loads(r.stdout)
@@ -136,7 +159,7 @@ def classify(res):
     """-> (verdict, detail, failing_prop).  Properties whose description starts with 'WITNESS' must FAIL (reachability /
     liveness of the throw path); every other property (harness assertions, pointer/bounds/overflow checks, unwinding
     assertions, unmodelled-external guards) must succeed."""
-    if res['status'] == 'timeout': return 'inconclusive', 'cbmc timeout after %.0fs' % res['wall_s'], None
+    if res['status'] == 'timeout': return 'inconclusive', ('cbmc exceeded the memory budget after %.0fs' if res.get('why') == 'memory' else 'cbmc timeout after %.0fs') % res['wall_s'], None
     if res['status'] == 'error': return 'broken', 'cbmc error: ' + str(res.get('detail'))[:1500], None
     bad = []; wit_ok = []; wit_bad = []; unwind_bad = []
     for p in res['props']:
